@@ -1131,10 +1131,19 @@ MULTIBYTE_BEFORE_ERROR = [b"SELECT '\xc3\xa9' FROM FROM", b"SELECT 1\nFROM `\xe6
 # ---------------------------------------------------------------- the statement family of Parse/StmtModel.v
 STMT_WORDS = [b"DROP", b"CREATE", b"ANALYZE", b"TABLE", b"INDEX", b"SEARCH", b"VECTOR", b"SCHEMA", b"DATABASE", b"VIEW", b"ROLE", b"SEQUENCE", b"MODEL",
               b"CHANGE", b"STREAM", b"PROPERTY", b"GRAPH", b"PROTO", b"BUNDLE", b"LOCALITY", b"GROUP", b"IF", b"EXISTS", b"a", b"a.b", b"`x y`", b"`TABLE`", b";", b"1", b".", b"drop", b"table"]
+# the vocabulary of RENAME TABLE / GRANT / REVOKE (sequences of it are generated separately: the products stay small)
+PRIV_WORDS = [b"GRANT", b"REVOKE", b"RENAME", b"TABLE", b"SELECT", b"INSERT", b"UPDATE", b"DELETE", b"EXECUTE", b"FUNCTION", b"ROLE", b"ON", b"TO", b"FROM", b"VIEW", b"CHANGE",
+              b"STREAM", b",", b"(", b")", b"a", b"`b c`", b";", b"1"]
 STMT_VALID = ["DROP SCHEMA s", "DROP LOCALITY GROUP g", "DROP PROTO BUNDLE", "DROP TABLE t", "DROP TABLE IF EXISTS a.b.c", "DROP INDEX i", "DROP INDEX IF EXISTS s.i",
               "DROP SEARCH INDEX i", "DROP SEARCH INDEX IF EXISTS i", "DROP VECTOR INDEX v", "DROP VECTOR INDEX IF EXISTS v", "DROP SEQUENCE s", "DROP SEQUENCE IF EXISTS a.s",
               "DROP VIEW v", "DROP VIEW a.v", "DROP ROLE r", "DROP CHANGE STREAM cs", "DROP MODEL m", "DROP MODEL IF EXISTS m", "DROP PROPERTY GRAPH g",
-              "DROP PROPERTY GRAPH IF EXISTS g", "ANALYZE", "CREATE SCHEMA s", "CREATE DATABASE d", "drop table `select`", "Drop Table If Exists `a b`.`c`"]
+              "DROP PROPERTY GRAPH IF EXISTS g", "ANALYZE", "CREATE SCHEMA s", "CREATE DATABASE d", "drop table `select`", "Drop Table If Exists `a b`.`c`",
+              "CREATE ROLE r", "RENAME TABLE a TO b", "RENAME TABLE a TO b , c TO d , e TO f", "rename table `x y` to z",
+              "GRANT SELECT ON TABLE t TO ROLE r", "GRANT SELECT ( a , b ) , INSERT ( c ) , UPDATE , DELETE ON TABLE t , u TO ROLE r , s",
+              "GRANT INSERT , UPDATE ( a ) ON TABLE t TO ROLE r", "GRANT SELECT ON VIEW v , w TO ROLE r", "GRANT EXECUTE ON TABLE FUNCTION f , g TO ROLE r",
+              "GRANT ROLE a , b TO ROLE c", "GRANT SELECT ON CHANGE STREAM cs , ds TO ROLE r", "REVOKE SELECT ON TABLE t FROM ROLE r",
+              "REVOKE ROLE a FROM ROLE b , c", "REVOKE EXECUTE ON TABLE FUNCTION f FROM ROLE r", "REVOKE SELECT ON VIEW v FROM ROLE r",
+              "REVOKE DELETE ON TABLE t FROM ROLE r", "grant select ( `a b` ) on table `t` to role `r`"]
 
 
 def stmt_family_cases(rnd, quick):
@@ -1145,6 +1154,14 @@ def stmt_family_cases(rnd, quick):
     for n in range(0, (3 if quick else 4) + 1):
         for seq in itertools.product(STMT_WORDS, repeat=n):
             single.add(b" ".join(seq))
+    for n in range(1, 4):
+        for seq in itertools.product(PRIV_WORDS, repeat=n):
+            single.add(b" ".join(seq))
+            if n == 3:
+                single.add(b"GRANT SELECT " + b" ".join(seq))
+                if not quick:
+                    single.add(b"REVOKE " + b" ".join(seq) + b" FROM ROLE r")
+                    single.add(b"GRANT SELECT ( a ) " + b" ".join(seq) + b" r")
     pieces = set()
     for v in STMT_VALID:
         toks = v.encode().split(b" ")
@@ -1154,7 +1171,7 @@ def stmt_family_cases(rnd, quick):
             if i < len(toks):
                 pieces.add(b" ".join(toks[:i] + toks[i + 1:]))
                 pieces.add(b" ".join(toks[:i] + [toks[i]] + toks[i:]))
-                for w in (b"1", b"IF", b"`TABLE`", b".", b"x", b"(", b"/*c*/"):
+                for w in (b"1", b"IF", b"`TABLE`", b".", b"x", b"(", b"/*c*/", b",", b"ON", b"SELECT", b"TO"):
                     pieces.add(b" ".join(toks[:i] + [w] + toks[i + 1:]))
                     pieces.add(b" ".join(toks[:i] + [w] + toks[i:]))
     single |= pieces
